@@ -39,7 +39,7 @@ u64 = st.one_of(st.sampled_from([0, 1, U64, 1 << 63, (1 << 63) - 1, 252, 253, 0x
 i64 = st.one_of(st.sampled_from([0, 1, -1, (1 << 63) - 1, -(1 << 63), 21 * 10 ** 14]), st.integers(-(1 << 63), (1 << 63) - 1))
 # bulk content comes from a 2-byte seed (keeps the Hypothesis choice sequence short: long sequences are discarded as overruns)
 h256 = st.one_of(st.binary(min_size=2, max_size=2).map(lambda s: hashlib.sha256(s).digest()), st.sampled_from([bytes(32), b"\xff" * 32, b"\x01" + bytes(31)]))
-small_counts = st.one_of(st.integers(0, 2), st.integers(0, 5))
+small_counts = st.one_of(st.integers(0, 2), st.integers(1, 5))
 big_counts = st.sampled_from([252, 253, 254, 300])          # 1-byte -> 3-byte CompactSize boundary for element counts
 counts = st.one_of(small_counts, small_counts, small_counts, st.integers(0, 12), big_counts)
 
